@@ -90,9 +90,11 @@ Example root_replaced_is_reported :
   xcorrect st_root_replaced (lookup N st_root_replaced) true 5 1 = Some false.
 Proof. vm_compute. repeat split; reflexivity. Qed.
 
-(* duplicate keys: check reads the copy its index answers with, restore may be answered the other *)
+(* duplicate keys: restore may be answered with the copy check's own index does not answer with;
+   since the fix read_data reads every pack holding a copy, so the damaged copy is reported
+   (before the fix this state was the witness of `duplicate_keys_refuted`: check clean) *)
 Example duplicate_witness :
-  xcheck st_dup 5 = Some [] /\ nodup_keys N st_dup = false /\
+  xcheck st_dup 5 = Some [EBlobDecrypt] /\ nodup_keys N st_dup = false /\
   (forall t i, match sel_last t i with
                | Some (p, b) => In (t, p, b) (rcandidates N st_dup t i)
                | None => rcandidates N st_dup t i = [] end) /\
@@ -107,3 +109,27 @@ Proof.
     unfold key_match in Hk. apply andb_true_iff in Hk. destruct Hk as [Hk _].
     destruct e as [[t' p] b]. simpl in *. destruct t', t; try discriminate; exact H.
 Qed.
+
+(* the packs check_trees collects do not contain pack 103 (check's index answers with 102 for chunk 3);
+   it is read because it holds a copy of a blob of the collected pack 102 *)
+Example duplicate_copy_pack_is_read :
+  check_trees N xblen xparse st_dup 5 = Some ([], [100; 101; 102; 102; 102]) /\
+  map ip_id (read_list N st_dup [100; 101; 102; 102; 102]) = [100; 101; 102; 103].
+Proof. vm_compute. split; reflexivity. Qed.
+
+(* read-data-subset: a partial read that is clean says nothing about restorability ... *)
+Example partial_subset_clean_not_restorable :
+  check_subset N xhash xblen xparse st_blob_damaged (SIdSubSet 1 3) (fun l => l) 5 = Some [] /\
+  xcheck st_blob_damaged 5 = Some [EBlobDecrypt] /\
+  readable N xblen xparse st_blob_damaged (lookup N st_blob_damaged) 5 1 = Some false.
+Proof. vm_compute. repeat split; reflexivity. Qed.
+(* ... while 100 % and a size covering everything read every pack, in any order *)
+Example full_subsets_report :
+  check_subset N xhash xblen xparse st_blob_damaged (SPercentage 100) (@rev _) 5 = Some [EBlobDecrypt] /\
+  check_subset N xhash xblen xparse st_blob_damaged (SSize 448) (@rev _) 5 = Some [EBlobDecrypt] /\
+  check_subset N xhash xblen xparse st_blob_damaged (SIdSubSet 3 3) (fun l => l) 5 = Some [EBlobDecrypt].
+Proof. vm_compute. repeat split; reflexivity. Qed.
+
+(* fuel: the walk needs one unit per tree level; more never changes the result *)
+Example fuel_levels : xcheck st_clean 1 = None /\ xcheck st_clean 2 = Some [] /\ xcheck st_clean 9 = Some [].
+Proof. vm_compute. repeat split; reflexivity. Qed.
